@@ -289,6 +289,35 @@ theorem rowsLen_of_have (n : Nat) (rows : List (List Rat × Bnd)) (h : rowsHaveL
     simp only [rowsHaveLen, Bool.and_eq_true, beq_iff_eq] at h
     exact ⟨h.1, ih h.2⟩
 
+theorem empty_not_has {b : Bnd} (h : b.empty = true) (v : Rat) : b.has v = false := by
+  unfold Bnd.empty at h
+  cases hlo : b.lo with
+  | none => simp [hlo] at h
+  | some l =>
+    cases hhi : b.hi with
+    | none => simp [hlo, hhi] at h
+    | some u =>
+      simp only [hlo, hhi, decide_eq_true_eq] at h
+      cases hh : b.has v with
+      | false => rfl
+      | true =>
+        have h1 := has_lo hh hlo
+        have h2 := has_hi hh hhi
+        linarith
+
+theorem allBox_false_of_empty (vb : List Bnd) (x : List Rat) (h : vb.any Bnd.empty = true) : allBox vb x = false := by
+  induction vb generalizing x with
+  | nil => simp at h
+  | cons b bs ih =>
+    cases x with
+    | nil => simp [allBox]
+    | cons v vs =>
+      simp only [List.any_cons, Bool.or_eq_true] at h
+      simp only [allBox]
+      rcases h with h | h
+      · simp [empty_not_has h v]
+      · simp [ih vs h]
+
 /-- **Soundness of the infeasibility (Farkas) certificate** -/
 theorem LP.checkInfeas_sound (p : LP) (y : List Rat) (h : p.checkInfeas y = true) :
     ∀ x, p.feasible x = false := by
@@ -297,24 +326,24 @@ theorem LP.checkInfeas_sound (p : LP) (y : List Rat) (h : p.checkInfeas y = true
   | false => rfl
   | true =>
     exfalso
-    simp only [LP.checkInfeas, Bool.and_eq_true, beq_iff_eq] at h
-    obtain ⟨⟨hrl, _⟩, hm⟩ := h
+    simp only [LP.checkInfeas, Bool.or_eq_true] at h
     simp only [LP.feasible, Bool.and_eq_true, beq_iff_eq] at hfx
     obtain ⟨⟨_, hxb⟩, hxr⟩ := hfx
-    cases hs : supRows y p.rows with
-    | none => simp [hs] at hm
-    | some r =>
-      cases hi : infVars (yA p.n y p.rows) p.vb with
-      | none => simp [hs, hi] at hm
-      | some l =>
-        simp only [hs, hi, decide_eq_true_eq] at hm
-        have h1 := wsum_le_sup x y p.rows r hxr hs
-        have h2 := inf_le_dot _ p.vb x l hxb hi
-        rw [dot_yA _ _ _ _ (rowsLen_of_have _ _ hrl)] at h2
-        linarith
-
-
-
+    rcases h with h | h
+    · rw [allBox_false_of_empty _ _ h] at hxb; cases hxb
+    · simp only [Bool.and_eq_true, beq_iff_eq] at h
+      obtain ⟨⟨hrl, _⟩, hm⟩ := h
+      cases hs : supRows y p.rows with
+      | none => simp [hs] at hm
+      | some r =>
+        cases hi : infVars (yA p.n y p.rows) p.vb with
+        | none => simp [hs, hi] at hm
+        | some l =>
+          simp only [hs, hi, decide_eq_true_eq] at hm
+          have h1 := wsum_le_sup x y p.rows r hxr hs
+          have h2 := inf_le_dot _ p.vb x l hxb hi
+          rw [dot_yA _ _ _ _ (rowsLen_of_have _ _ hrl)] at h2
+          linarith
 
 theorem has_ray {b : Bnd} {v z t : Rat} (hv : b.has v = true) (hz : rayOK b z = true) (ht : 0 ≤ t) :
     b.has (v + t * z) = true := by
